@@ -31,6 +31,7 @@ Signatures reported by the monitor:
 """
 import collections
 import contextlib
+import copy
 import io
 import itertools
 import json
@@ -203,7 +204,10 @@ UNDECODABLE = [b"\xff\xfe{", "{\"a\": \"caf\xe9\"}".encode("latin-1"), b"[1, 2]\
 def not_json(r):
     return r.choice(UNDECODABLE) if r.random() < 0.3 else r.choice(NOT_JSON)
 FORMATS = ["{error.message}|", "{file_name}: {error.message}\n", "<{error.validator}:{error.instance!r}>\n", "",
-           "{error.instance}: {error.message}\n", "{{x}} {error.message}\n"]
+           "{error.instance}: {error.message}\n", "{{x}} {error.message}\n",
+           # formats are text: letters outside ASCII, backslashes and percent signs stay what they are
+           "→ {error.message} ✗\n", "Fehler: {error.message} — ungültig\n", "C:\\temp\\n {error.message} \\t|\n",
+           "100% {error.message} \\u00e9\n"]
 
 # (schema, valid instances, invalid instances) — the number of errors is measured, not assumed
 BANK = [
@@ -383,8 +387,9 @@ def gen_scenarios(ctx):
 
 def base_uri_scenario(ctx, b):
     r = ctx.r
-    kind = r.choice(["sibling", "sibling", "fragment", "missing-sibling", "notjson-sibling", "undecodable-sibling", "no-base-uri", "nested", "id-and-base"])
-    files_extra = {"defs.json": json.dumps({"definitions": {"pos": {"type": "integer", "minimum": 1}, "s": {"type": "string"}}}),
+    kind = r.choice(["sibling", "sibling", "fragment", "missing-sibling", "notjson-sibling", "undecodable-sibling", "no-base-uri", "nested", "id-and-base",
+                     "early-exit", "early-exit"])
+    files_extra = {"defs.json": json.dumps({"definitions": {"pos": {"type": "integer", "minimum": 1}, "s": {"type": "string"}, "t": {"type": "string"}}}),
                    "int.json": json.dumps({"type": "integer"}),
                    "chain.json": json.dumps({"items": {"$ref": "int.json"}})}
     if kind == "sibling":
@@ -402,6 +407,20 @@ def base_uri_scenario(ctx, b):
     elif kind == "undecodable-sibling":
         files_extra["bytes.json"] = r.choice(UNDECODABLE)
         schema, valid, invalid = {"properties": {"a": {"$ref": "bytes.json"}}}, [{}, 1], [{"a": 1}]
+    elif kind == "early-exit":
+        # a reference into a sibling file under a keyword that only asks is_valid (and so abandons the
+        # sub-validation at its first error), next to a same-document reference whose pointer also exists,
+        # with another meaning, in the sibling file: instances are judged one by one, whatever came before
+        wrapper = r.choice(["not", "not", "contains", "oneOf"])
+        target = {"$ref": "defs.json#/definitions/pos"}
+        sub = {"not": target} if wrapper == "not" else {"contains": target} if wrapper == "contains" else {"oneOf": [{"type": "string"}, target]}
+        schema = {"properties": {"a": sub, "b": {"$ref": "#/definitions/t"}}, "definitions": {"t": {"type": "null"}}}
+        if wrapper == "not":
+            valid, invalid = [{"a": "x"}, {"b": None}, {"a": 0, "b": None}, {"a": "y"}], [{"a": 5}, {"b": "s"}, {"a": "x", "b": "s"}]
+        elif wrapper == "contains":
+            valid, invalid = [{"a": ["x", 0, 3]}, {"b": None}, {"a": [0, 1], "b": None}], [{"a": ["x", 0]}, {"b": "s"}]
+        else:
+            valid, invalid = [{"a": "x"}, {"a": 3}, {"b": None}], [{"a": 0}, {"b": "s"}, {"a": None}]
     elif kind == "id-and-base":
         schema = {"$id": "sub/root.json", "properties": {"a": {"$ref": "../int.json"}, "b": {"$ref": "#/definitions/t"}},
                   "definitions": {"t": {"type": "null"}}}
@@ -409,6 +428,8 @@ def base_uri_scenario(ctx, b):
     else:
         schema, valid, invalid = {"properties": {"a": {"$ref": "int.json"}}}, [{}, 1], [{"a": 1}, {"a": "x"}]
     shape = "".join(r.choice("MNIIVV") for _ in range(r.randrange(1, 5)))
+    if kind == "early-exit":
+        shape = "".join(r.choice("IVVV") for _ in range(r.randrange(3, 7)))
     sts = []
     for ch in shape:
         if ch == "M":
@@ -543,8 +564,11 @@ def library_view(sc, d):
         return ("schema-invalid", p_error(mode, fmt, spath, e, "schemaError"))
     except Exception as exc:       # noqa: BLE001  the library itself crashes on this schema (C03/C11's business)
         return ("schema-crash", exc)
-    resolver = V.RefResolver(base_uri=base_uri_of(sc, d), referrer=schema) if sc.base_uri is not None else None
-    validator = cls(schema, resolver=resolver)
+    def fresh_validator():
+        # every instance is judged on its own: a validator (and resolver) that has seen nothing before
+        sch = copy.deepcopy(schema)
+        resolver = V.RefResolver(base_uri=base_uri_of(sc, d), referrer=sch) if sc.base_uri is not None else None
+        return cls(sch, resolver=resolver)
     per = []
     if sc.instances is None:
         items = [("<stdin>", sc.stdin_text)]
@@ -560,7 +584,7 @@ def library_view(sc, d):
             continue
         pieces, raised = [], None
         try:
-            for err in validator.iter_errors(st[1]):
+            for err in fresh_validator().iter_errors(st[1]):
                 pieces.append(p_error(mode, fmt, path, err))
         except Exception as exc:       # noqa: BLE001
             raised = exc
